@@ -157,3 +157,83 @@ func H_C08_set_once() {
 	vCheckAgainstRef("C08 after SetStructTypeCache", err, r)
 	vReach("end")
 }
+
+// functions given for one call never reach another call through the cache: a call with per-call
+// functions, then calls on the same type without them (or with other ones), in every order
+func vC08FnCall(i int, mode int) {
+	is := vNum(i)
+	o := &vT1{A: "a", B: "b", C: "c"} // the observable is which function object each rule name resolves to
+	vULog = nil
+	r := vNewRef()
+	r.global = map[string]bool{"r1": true, "r2": true, "r3": true}
+	r.globalTag = map[string]string{"r1": "r1", "r2": "r2", "r3": "r3"}
+	var err error
+	switch mode {
+	case 0: // tags only
+		err = Struct(o)
+	case 1: // r1 and an otherwise unknown name given for this call
+		err = StructForFns(o, RM{"B": "r2,r9"}, Name2FnMap{"r1": vURule("L-r1"), "r9": vURule("L-r9")})
+		r.unscoped = RM{"B": "r2,r9"}
+		r.local = map[string]bool{"r1": true, "r9": true}
+		r.localTag = map[string]string{"r1": "L-r1", "r9": "L-r9"}
+	case 2: // another function under the same name
+		err = ValidStructForMyValidFn(o, "r1", vURule("M-r1"))
+		r.local = map[string]bool{"r1": true}
+		r.localTag = map[string]string{"r1": "M-r1"}
+	case 3: // unknown name without a function: an error clause, other rules still run
+		err = Struct(o, RM{"B": "r2,r9"})
+		r.unscoped = RM{"B": "r2,r9"}
+	}
+	r.top(o)
+	vCheckAgainstRef("C08 call "+is+" (functions of this call only)", err, r)
+}
+
+func vC08Fns(adversarial bool) {
+	vUNoFail = true
+	vGlobalRules()
+	if adversarial {
+		cacheStructType = &vAdvCache{}
+	} else {
+		cacheStructType = NewLRU(vndChoice("cap", 3))
+	}
+	for i := 0; i < 3; i++ {
+		vC08FnCall(i, vndChoice("mode"+vNum(i), 4))
+	}
+	vReach("end")
+}
+
+func H_C08_fns_real() { vC08Fns(false) }
+func H_C08_fns_adv()  { vC08Fns(true) }
+
+// a small real LRU shared by two goroutines validating different types (more types than capacity): a
+// hit on one type while the other call's miss evicts / recycles the entry still judges the value by
+// its own type's rules
+type vT4 struct {
+	P string `valid:"required,le=1"`
+	Q string `valid:"ge=2"`
+	R string `valid:"required"`
+}
+
+func H_C08_concurrent_small_lru() {
+	a, p := vStr("a"), vStr("p")
+	c1 := func() string { return vErrText(Struct(&vP1{A: a, B: 9})) }
+	c2 := func() string { return vErrText(Struct(&vT4{P: p, Q: "q"})) }
+	warm := vndChoice("warm", 3)
+	cacheStructType = NewLRU(1)
+	switch warm {
+	case 1:
+		_ = c1()
+	case 2:
+		_ = c2()
+	}
+	var g1, g2 string
+	vGo(func() { g1 = c1() })
+	vGo(func() { g2 = c2() })
+	vJoin()
+	p1, p2 := c1(), c2()
+	cacheStructType = vNoCache{}
+	w1, w2 := c1(), c2()
+	vAssert(g1 == w1 && g2 == w2, "C08 concurrent calls over a one-entry LRU: results as without a cache")
+	vAssert(p1 == w1 && p2 == w2, "C08 later calls on the cache the concurrent calls left: results as without a cache")
+	vReach("end")
+}
